@@ -7,23 +7,40 @@
 (*   Run      an accepted call of a not-implemented name fails             *)
 (* and the well-formedness of the table (role 1).  Check emits the case    *)
 (* (role 2).  "nosuchfn" stands for every name outside the table.          *)
+(* Before the call, up to two earlier compilations under either            *)
+(* configuration may have happened in the same process (Earlier): the      *)
+(* base table is frozen, so what a configuration resolves does not depend  *)
+(* on that history (mutant experimentalLeaks: a compilation with           *)
+(* WithExperimentalFuncs writes the experimental names into the base).     *)
 (***************************************************************************)
 EXTENDS C16
 
-VARIABLES cfg, name, count, phase, found, accepted, result
-vars == <<cfg, name, count, phase, found, accepted, result>>
+VARIABLES cfg, name, count, phase, found, accepted, result, hist, base
+vars == <<cfg, name, count, phase, found, accepted, result, hist, base>>
+
+BaseNames == {Table[j].name : j \in {h \in 1..Len(Table) : Table[h].status # "experimental"}}
+ExpNames  == Names \ BaseNames
+(* what a compilation under configuration c resolves, given the base table as it is now *)
+VisibleNow(c) == base \cup (IF c = "experimental" THEN ExpNames ELSE {})
 
 AllNames == Names \cup {"nosuchfn"}
 
 Init ==
   /\ cfg \in Configs /\ name \in AllNames /\ count \in Counts
   /\ phase = "start" /\ found = FALSE /\ accepted = FALSE /\ result = "none"
+  /\ hist = <<>> /\ base = BaseNames
+
+Earlier(c) ==
+  /\ phase = "start" /\ Len(hist) < 2
+  /\ hist' = Append(hist, c)
+  /\ base' = IF Mutant = "experimentalLeaks" /\ c = "experimental" THEN base \cup ExpNames ELSE base
+  /\ UNCHANGED <<cfg, name, count, phase, found, accepted, result>>
 
 Lookup ==
   /\ phase = "start"
-  /\ found' = Found(Visible(cfg), name)
+  /\ found' = Found(VisibleNow(cfg), name)
   /\ phase' = "resolved"
-  /\ UNCHANGED <<cfg, name, count, accepted, result>>
+  /\ UNCHANGED <<cfg, name, count, accepted, result, hist, base>>
 
 Bounds(n) == IF Known(n) THEN <<MinCount(Entry(n)), MaxCount(Entry(n))>> ELSE <<0, 0>>
 
@@ -31,8 +48,8 @@ Check ==
   /\ phase = "resolved"
   /\ accepted' = (found /\ InBounds(Bounds(name)[1], Bounds(name)[2], count))
   /\ phase' = "compiled"
-  /\ UNCHANGED <<cfg, name, count, found, result>>
-  /\ Known(name) => PrintT(ToJson(CaseOf(Entry(name), count, cfg)))
+  /\ UNCHANGED <<cfg, name, count, found, result, hist, base>>
+  /\ Known(name) /\ hist = <<>> => PrintT(ToJson(CaseOf(Entry(name), count, cfg)))
 
 Run ==
   /\ phase = "compiled"
@@ -41,15 +58,18 @@ Run ==
                     THEN "not-implemented-error"
                ELSE "value"
   /\ phase' = "done"
-  /\ UNCHANGED <<cfg, name, count, found, accepted>>
+  /\ UNCHANGED <<cfg, name, count, found, accepted, hist, base>>
 
-Next == Lookup \/ Check \/ Run
+Next == (\E c \in Configs : Earlier(c)) \/ Lookup \/ Check \/ Run
 Spec == Init /\ [][Next]_vars
 
 (* ------------------------------------------------------------------------ *)
 TableWellFormed == WellFormed
 
-(* Compile accepts exactly the calls the table allows. *)
+(* No compilation changes the base table. *)
+BaseTableFrozen == base = BaseNames /\ (\A c \in Configs : VisibleNow(c) = Visible(c))
+
+(* Compile accepts exactly the calls the table allows - whatever was compiled before. *)
 AcceptIffAllowed ==
   phase \in {"compiled", "done"} =>
      accepted = (name \in Visible(cfg) /\ count \in Entry(name).counts)
